@@ -556,14 +556,14 @@ Lemma rn_comp s1 f1 stop (K : Z -> Z -> Prop) :
   (forall k v, K k v -> In (k, v) (f_out f1) \/ (~ In k (f_visited f1) /\ exists e, f_rd_m f1 !! k = Some e /\ read_m s1 !! k = Some e)) ->
   match range_next f1 stop with
   | Continue f' => prelock f' /\ (final_pc (f_pc f') = true -> comp s1 f' K)
-  | Return r => exists out cnt, r = RRange out cnt /\ cnt = f_acc f1 /\ forall k v, K k v -> In (k, v) out \/ stop = true
+  | Return r => exists out cnt, r = RRange out cnt /\ (out = f_out f1 /\ cnt = f_acc f1) /\ forall k v, K k v -> In (k, v) out \/ stop = true
   | Callback _ _ _ => False
   end.
 Proof.
   intros H. unfold range_next. destruct stop.
   - exists (f_out f1), (f_acc f1). auto.
   - destruct (unvisited (f_rd_m f1) (f_visited f1)) eqn:E.
-    + exists (f_out f1), (f_acc f1). split; [reflexivity|]. split; [reflexivity|]. intros k v HK. left.
+    + exists (f_out f1), (f_acc f1). split; [reflexivity|]. split; [split; reflexivity|]. intros k v HK. left.
       destruct (H k v HK) as [Hin|(Hnd & e & He & _)]; [exact Hin|]. exfalso. apply Hnd.
       apply elem_of_list_In. eapply unvisited_nil; eauto.
     + split; [unfold prelock; cbn; discriminate|]. intros _. exact H.
@@ -597,7 +597,7 @@ Lemma sf_range3 i' o :
   match eff o with
   | Continue f' => prelock f' /\ (final_pc (f_pc f') = true -> comp (i_st i') f' K)
   | Return r => exists out cnt, r = RRange out cnt /\
-                 forall k v, K k v -> In (k, v) out \/ exists n, cb = CbStop (Some n) /\ (Z.of_nat n <= cnt)%Z
+                 forall k v, K k v -> In (k, v) out \/ exists n, cb = CbStop (Some n) /\ out <> [] /\ (Z.of_nat n <= cnt)%Z
   | Callback _ _ _ => False
   end.
 Proof.
@@ -610,7 +610,7 @@ Proof.
             match eff (range_next f1 false) with
             | Continue f' => prelock f' /\ (final_pc (f_pc f') = true -> comp s1 f' K)
             | Return r => exists out cnt, r = RRange out cnt /\
-                           forall k v, K k v -> In (k, v) out \/ exists n, cb = CbStop (Some n) /\ (Z.of_nat n <= cnt)%Z
+                           forall k v, K k v -> In (k, v) out \/ exists n, cb = CbStop (Some n) /\ out <> [] /\ (Z.of_nat n <= cnt)%Z
             | Callback _ _ _ => False
             end).
   { intros s1 f1 X. rewrite eff_range_next. pose proof (rn_comp s1 f1 false K X) as Y.
@@ -655,9 +655,11 @@ Proof.
       unfold cb_next. cbv zeta. fold f2. rewrite Hcall. cbn [cb_of].
       pose proof (rn_comp (i_st i) f2 (match cb with CbStop (Some n) => (Z.of_nat n <=? f_acc f2)%Z | _ => false end) K X2) as Y.
       destruct (range_next f2 _) as [f'|r|]; [exact Y| |exact Y].
-      destruct Y as (out & cnt & -> & Hcnt & Y). exists out, cnt. split; [reflexivity|]. intros k v0 Hk.
+      destruct Y as (out & cnt & -> & [Hout Hcnt] & Y). exists out, cnt. split; [reflexivity|]. intros k v0 Hk.
       destruct (Y k v0 Hk) as [Hin|Hstop]; [auto|]. right.
-      destruct cb as [[n|]| |]; try discriminate Hstop. exists n. split; [reflexivity|]. apply Z.leb_le in Hstop. lia.
+      destruct cb as [[n|]| |]; try discriminate Hstop. exists n. split; [reflexivity|]. split.
+      { rewrite Hout. unfold f2. cbn. intros E. symmetry in E. apply app_cons_not_nil in E. exact E. }
+      apply Z.leb_le in Hstop. lia.
   - (* Range_read1 *)
     destruct (amended (i_st i)) eqn:Ham; injection H as <- <-; cbn [eff].
     + split; [unfold prelock; cbn; reflexivity|discriminate].
@@ -776,7 +778,7 @@ Record RInv3 (progs : list (list call)) (ptr : list (config * nat)) (c : config)
             final_pc (f_pc f) = true -> comp (st0 c) f (stable ptr t (length (t_results th)));
   r3_res : forall t th i out cnt, nth_error (c_threads c) t = Some th -> nth_error (t_results th) i = Some (RRange out cnt) ->
            forall k v, stable ptr t i k v ->
-           In (k, v) out \/ exists p n, nth_error progs t = Some p /\ nth_error p i = Some (CRange 0 (CbStop (Some n))) /\ (Z.of_nat n <= cnt)%Z
+           In (k, v) out \/ exists p n, nth_error progs t = Some p /\ nth_error p i = Some (CRange 0 (CbStop (Some n))) /\ out <> [] /\ (Z.of_nat n <= cnt)%Z
 }.
 
 Lemma stable_mono ptr ptr' t i k v : (forall x, In x ptr -> In x ptr') -> stable ptr' t i k v -> stable ptr t i k v.
@@ -823,7 +825,7 @@ Proof.
             | Continue f' => prelock f' /\ (final_pc (f_pc f') = true -> comp (i_st i') f' (stable (ptr ++ [(c, t)]) t (length (t_results th))))
             | Return r => exists out cnt, r = RRange out cnt /\
                            forall k v, stable (ptr ++ [(c, t)]) t (length (t_results th)) k v ->
-                             In (k, v) out \/ exists n, cbb = CbStop (Some n) /\ (Z.of_nat n <= cnt)%Z
+                             In (k, v) out \/ exists n, cbb = CbStop (Some n) /\ out <> [] /\ (Z.of_nat n <= cnt)%Z
             | Callback _ _ _ => False
             end).
   { intros jj cbb Hcall. assert (Hrg : is_range (f_call f) = true) by (rewrite Hcall; reflexivity).
@@ -927,7 +929,7 @@ Theorem range_complete z progs sched t th i out cnt :
   nth_error (c_threads c) t = Some th -> nth_error (t_results th) i = Some (RRange out cnt) ->
   forall k v,
     (forall x, In x (steps_from (init_config_z [z] progs) sched) -> in_call_at x t i -> abs_lookup (st0 x.1) k = Some v) ->
-    In (k, v) out \/ exists p n, nth_error progs t = Some p /\ nth_error p i = Some (CRange 0 (CbStop (Some n))) /\ (Z.of_nat n <= cnt)%Z.
+    In (k, v) out \/ exists p n, nth_error progs t = Some p /\ nth_error p i = Some (CRange 0 (CbStop (Some n))) /\ out <> [] /\ (Z.of_nat n <= cnt)%Z.
 Proof.
   intros Hfr c Hth Hn k v S.
   pose proof (RInv3_run progs sched [init_config_z [z] progs] [] (init_config_z [z] progs) (Inv_init_z [z] progs) (Inv2_init_z [z] progs)
@@ -949,4 +951,27 @@ Proof.
   intros Hfr Hp Hpi c Hth Hn k v S.
   destruct (range_complete z progs sched t th i out cnt Hfr Hth Hn k v S) as [H|(p2 & n & Hp2 & Hi2 & _)]; [exact H|].
   congruence.
+Qed.
+
+(* ---- the stability hypothesis of [range_complete] can be checked by computation ---- *)
+Definition in_call_atb (x : config * nat) (t i : nat) : bool :=
+  match nth_error (c_threads x.1) t with
+  | Some th => Nat.eqb (length (t_results th)) i && match t_stack th with [] => false | _ => true end &&
+               (negb (t_fresh th) || Nat.eqb x.2 t)
+  | None => false
+  end.
+
+Lemma in_call_at_b x t i : in_call_at x t i -> in_call_atb x t i = true.
+Proof.
+  unfold in_call_atb. intros [(th & -> & <- & Hf & Hs)|(E & th & -> & <- & Hf & Hs)].
+  - rewrite Nat.eqb_refl, Hf. destruct (t_stack th); [contradiction|reflexivity].
+  - rewrite Nat.eqb_refl, Hf, E, Nat.eqb_refl. destruct (t_stack th); [contradiction|reflexivity].
+Qed.
+
+Lemma stable_check (ptr : list (config * nat)) t i k v :
+  forallb (fun x => implb (in_call_atb x t i) (bool_decide (abs_lookup (st0 x.1) k = Some v))) ptr = true ->
+  forall x, In x ptr -> in_call_at x t i -> abs_lookup (st0 x.1) k = Some v.
+Proof.
+  intros H x Hx Hat. rewrite forallb_forall in H. specialize (H x Hx). rewrite (in_call_at_b x t i Hat) in H.
+  cbn in H. apply bool_decide_eq_true in H. exact H.
 Qed.
